@@ -121,6 +121,10 @@ Print Assumptions C20_reservoir_items.
 
 (** * FALSE of the code: cmd/sample.go (no --replace) and cmd/prune.go randomTips use
     rand.Intn(i) when item i (0-based) arrives *)
+Example C20_code_index_expression : forall i, code_bound i = go_bound i.
+Proof. reflexivity. Qed.
+Print Assumptions C20_code_index_expression.
+
 Theorem C20_reservoir_go_refuted :
   exists n k s s', 1 <= k /\ k <= n /\ In s (subsets k (seq 0 n)) /\ In s' (subsets k (seq 0 n)) /\
                    res_count go_bound n k s <> res_count go_bound n k s'.
